@@ -32,7 +32,8 @@ EXPLANATION = (
     'columns= handed to the scanned database state is built from Field.column '
     '(real column names), never from field names / attnames; '
     'R-C01.7 the optimiser tests whether a mutation was marked as removed through a hash-based container (BaseMutation.__eq__ is structural, __hash__ is identity): a list would drop a kept mutation that merely equals a removed one; '
-    'R-C01.8 an alter-table item whose producer changes field.db_index puts its field where the rebuild computes new_fields from (the rebuild re-creates field indexes from that list, built from its own model); R-C01.9 the deleted-column filter of the rebuild ranges over the existing fields only, never over added_fields.')
+    'R-C01.8 an alter-table item whose producer changes field.db_index puts its field where the rebuild computes new_fields from (the rebuild re-creates field indexes from that list, built from its own model); R-C01.9 the deleted-column filter of the rebuild ranges over the existing fields only, never over added_fields; '
+    'R-C01.10 quoted column identifiers come from Field.column and a REFERENCES clause names the related primary key field\'s column; R-C01.11 the two exits of the SQLite to_sql concatenate their parts in the same order; R-C01.12 the scanned database state records index/unique entries only; R-C01.13 deleting a column forgets its indexes in the state; R-C01.14 the from_/to_ naming of an automatic many-to-many table is decided by comparing lower-cased model names.')
 NOT_DECIDED = (
     'That the generated SQL executes and yields the same schema as creating '
     'the models from scratch, for any schema/sequence (needs SQLite and '
